@@ -82,9 +82,10 @@ PwResolve(ok) ==
      ELSE Fire("err") /\ UNCHANGED wire
   /\ UNCHANGED <<scen, pwCalls, accepted, hashOk, via, lost>>
 
-\* Tor answers AUTHCHALLENGE
+\* Tor answers AUTHCHALLENGE: with the right server hash, or with something that does not prove knowledge of
+\* the cookie (another hash, a prefix of the right one, an empty one, the right one with extra bytes), ...
 ReplyChallenge(k) ==
-  /\ phase = "challenge" /\ k \in {"ok", "wronghash", "malformed", "err"}
+  /\ phase = "challenge" /\ k \in {"ok", "wronghash", "shorthash", "emptyhash", "longhash", "malformed", "err"}
   /\ IF k = "ok" THEN hashOk' = TRUE /\ Send("AUTHENTICATE", "proof") /\ phase' = "authenticate" /\ UNCHANGED <<ready, nready>>
      ELSE Fire("err") /\ UNCHANGED <<wire, hashOk>>
   /\ UNCHANGED <<scen, pwCalls, accepted, via, lost>>
@@ -118,7 +119,7 @@ Next ==
   \/ Start
   \/ \E k \in {"ok", "noauth", "err"} : ReplyPI(k)
   \/ \E ok \in BOOLEAN : PwResolve(ok) \/ ReplyAuth(ok) \/ ReplyQuery(ok)
-  \/ \E k \in {"ok", "wronghash", "malformed", "err"} : ReplyChallenge(k)
+  \/ \E k \in {"ok", "wronghash", "shorthash", "emptyhash", "longhash", "malformed", "err"} : ReplyChallenge(k)
   \/ Disconnect
 
 Spec == Init /\ [][Next]_vars
